@@ -63,7 +63,7 @@ func Harness_C09_persisted() {
 		zzsym.Assert(!executed || d.kind == "query", "GET executes only query operations, wherever the document comes from")
 	}
 	if executed {
-		zzsym.Assert(len(es.execs) == 1 && es.execs[0] == d.kind+":"+d.name, "exactly the operation the request names is executed, once")
+		zzsym.Assert(len(es.execs) == 1 && es.execs[0] == d.exec(), "exactly the operation the request names is executed, once")
 		zzsym.Assert(w.status == 200, "a request whose execution started is answered 200")
 		zzsym.Reach("c09.persisted.executed")
 	} else {
@@ -207,4 +207,72 @@ func Harness_C09_routing() {
 	if w.status < 200 || w.status > 299 {
 		zzsym.Assert(!executed, "nothing runs for a request answered with a non-2xx status")
 	}
+}
+
+func Setup_C09_presenter() { Setup_C09_http() }
+
+// Harness_C09_presenter: a server whose error presenter rewrites what the
+// client sees (drops the machine-readable code, replaces the extensions or
+// the message - a common customisation, done in place on the presented
+// error): the status still follows the request's outcome on every HTTP
+// transport - an invalid document is a client error, never 200.
+func Harness_C09_presenter() {
+	es := &hES{}
+	srv := hServer(es, nil)
+	mode := zzsym.Choice("presenter", 3)
+	srv.SetErrorPresenter(func(ctx context.Context, err error) *gqlerror.Error {
+		e := graphql.DefaultErrorPresenter(ctx, err)
+		switch mode {
+		case 0:
+			delete(e.Extensions, "code")
+		case 1:
+			e.Extensions = map[string]any{"code": "E_CUSTOM", "hint": "see docs"}
+		case 2:
+			e.Message = "something went wrong"
+			e.Extensions = nil
+		}
+		return e
+	})
+	d := hDocs[[]int{7, 8, 3, 4, 9}[zzsym.Choice("doc", 5)]] // validation error, parse error, ambiguous / unknown / unexpected operation name
+	r := &http.Request{Header: http.Header{}, URL: &url.URL{Path: "/query"}}
+	if zzsym.Choice("accept", 2) == 1 {
+		r.Header.Set("Accept", hGRJ)
+	}
+	switch zzsym.Choice("transport", 5) {
+	case 0:
+		r.Method = "GET"
+		v := url.Values{}
+		v.Set("query", d.query)
+		if d.op != "" {
+			v.Set("operationName", d.op)
+		}
+		r.URL.RawQuery = v.Encode()
+		r.Body = http.NoBody
+	case 1:
+		r.Method = "POST"
+		r.Header.Set("Content-Type", "application/json")
+		r.Body = io.NopCloser(strings.NewReader(hJSONBody(d)))
+	case 2:
+		r.Method = "POST"
+		r.Header.Set("Content-Type", "application/graphql")
+		r.Body = io.NopCloser(strings.NewReader(d.query))
+		if d.op != "" {
+			zzsym.Assume(false) // application/graphql carries no operation name
+		}
+	case 3:
+		r.Method = "POST"
+		r.Header.Set("Content-Type", "application/x-www-form-urlencoded")
+		r.Body = io.NopCloser(strings.NewReader(hJSONBody(d)))
+	case 4:
+		r.Method = "POST"
+		r.Header.Set("Content-Type", "multipart/form-data; boundary=B")
+		r.Body = io.NopCloser(strings.NewReader("--B\r\nContent-Disposition: form-data; name=\"operations\"\r\n\r\n" + hJSONBody(d) + "\r\n--B\r\nContent-Disposition: form-data; name=\"map\"\r\n\r\n{}\r\n--B--\r\n"))
+		srv.AddTransport(transport.MultipartForm{})
+	}
+	w := newHWriter()
+	srv.ServeHTTP(w, r)
+	hCheckBody(w)
+	zzsym.Assert(len(es.execs) == 0, "an invalid request executes nothing")
+	zzsym.Assert(w.status >= 400 && w.status < 500, "an invalid document is answered with a client-error status whatever the error presenter shows")
+	zzsym.Reach("c09.presenter")
 }
